@@ -854,6 +854,24 @@ impl IndexerHandle {
     }
 }
 
+#[cfg(feature = "verif-hooks")]
+impl IndexerHandle {
+    /// verif-hooks: a handle over an already opened store (what `IndexerService::handle` builds)
+    pub(crate) fn verif_new(
+        store: RocksdbStore,
+        pool: Option<Arc<RwLock<Pool>>>,
+        request_limit: usize,
+        timeout_limit: Duration,
+    ) -> Self {
+        IndexerHandle {
+            store,
+            pool,
+            request_limit,
+            timeout_limit,
+        }
+    }
+}
+
 const MAX_PREFIX_SEARCH_SIZE: usize = u16::MAX as usize;
 
 // a helper fn to build query options from search parameters, returns prefix, from_key, direction and skip offset
